@@ -100,6 +100,8 @@ type mOmit struct {
 	P  *uint32  `avp:"V-Integer32,omitempty"`
 	Xs []uint32 `avp:"V-Unsigned64,omitempty"`
 	F  float64  `avp:"V-Float64,omitempty"`
+	I  string   `avp:"V-DiameterIdentity,omitempty"` // (a name that ends in letters of the option's own name)
+	E  int32    `avp:"V-Enumerated,omitempty"`
 }
 type mVendor struct {
 	VA uint32               `avp:"VV-Unsigned32"`
@@ -164,6 +166,24 @@ type mSignedU32 struct {
 	A int64 `avp:"V-Unsigned32"`
 	B int   `avp:"VW-Unsigned32"`
 }
+
+// groups all of whose members are omitted: the group itself is still there (an empty Grouped AVP), as when built by hand
+type mInnerOmit struct {
+	A uint32 `avp:"V-Unsigned32,omitempty"`
+	S string `avp:"V-UTF8String,omitempty"`
+}
+type mEmptyGroups struct {
+	G mInnerOmit  `avp:"V-Grouped"`
+	P *mInnerOmit `avp:"V-Grouped2"`
+	N uint32      `avp:"V-Integer32"`
+}
+
+// an AVP of the base dictionary (User-Name, code 1, no vendor) in a message of an application that gives the same
+// code to one of its vendor-specific AVPs
+type mBaseShadow struct {
+	U string `avp:"User-Name"`
+	X uint32 `avp:"V-Unsigned32"`
+}
 type mAVPs struct {
 	A  diam.AVP    `avp:"V-Unsigned32"`
 	P  *diam.AVP   `avp:"V-UTF8String"`
@@ -197,6 +217,8 @@ var mTypes = []mType{
 	{"EmbeddedTagged", func() interface{} { return &mEmbeddedTagged{} }, nil},
 	{"BaseVSA", func() interface{} { return &mBaseVSA{} }, nil},
 	{"DatatypeConv", func() interface{} { return &mDatatypeConv{} }, nil},
+	{"EmptyGroups", func() interface{} { return &mEmptyGroups{} }, nil},
+	{"BaseShadow", func() interface{} { return &mBaseShadow{} }, nil},
 	{"Repeat", func() interface{} { return &mRepeat{} }, func(v interface{}) { r := v.(*mRepeat); r.B = r.A }},
 	{"SignedU32", func() interface{} { return &mSignedU32{} }, func(v interface{}) {
 		r := v.(*mSignedU32)
@@ -268,6 +290,8 @@ func defByName(name string) (abs.Def, bool) {
 		return abs.Def{App: 0, Code: 266, Vendor: 0, Name: name, Kind: "u32", Must: "M"}, true
 	case "Auth-Application-Id":
 		return abs.Def{App: 0, Code: 258, Vendor: 0, Name: name, Kind: "u32", Must: "M"}, true
+	case "User-Name":
+		return abs.Def{App: 0, Code: 1, Vendor: 0, Name: name, Kind: "utf8", Must: "M"}, true
 	case "Acct-Application-Id":
 		return abs.Def{App: 0, Code: 259, Vendor: 0, Name: name, Kind: "u32", Must: "M"}, true
 	}
@@ -731,6 +755,13 @@ func Marshal(a Args) error {
 	vp2, err := abs.NewVParserShift(a.Repo, 300)
 	if err != nil {
 		return err
+	}
+	// the verification application gives code 1 (User-Name in the base dictionary) to a vendor-specific AVP of its own
+	for _, p := range []*dict.Parser{vp, vp2} {
+		x := fmt.Sprintf(`<?xml version="1.0" encoding="UTF-8"?><diameter><application id="%d" type="auth" name="Verif"><avp name="VV-Shadow" code="1" must="V" may="M,P" must-not="-" may-encrypt="-" vendor-id="%d"><data type="Unsigned32"/></avp></application></diameter>`, abs.VApp, abs.VVendor)
+		if err := p.Load(strings.NewReader(x)); err != nil {
+			return err
+		}
 	}
 	id := 0
 	if a.Cases != "" {
